@@ -587,6 +587,57 @@ func (s *scen) v2Contracts() {
 	}
 }
 
+// ephemeralMaturity: an immature output created in the block (a siafund claim) is spent later in the same block by
+// a transaction that claims maturity height 0 for it. From the ephemeral-output fix height on this must be rejected
+// (an output cannot be spent before its maturity height); below it the claimed contents are not checked (documented
+// legacy window, recorded only).
+func (s *scen) ephemeralMaturity() {
+	n := s.c.Net.N
+	if !s.v2Allowed() || n.MaturityDelay == 0 {
+		return
+	}
+	cs := s.c.Tip()
+	child := cs.Index.Height + 1
+	claimLock := stdUC(s, 4)
+	for _, id := range s.c.S.OrderedSF() {
+		e := s.c.S.SFEs[id]
+		l := s.c.W.Locks[e.SiafundOutput.Address]
+		if l == nil || !l.SpendableV2(cs.Index.Height, chaingen.Median(cs)) || l.Kind == "uc-unknown-alg" {
+			continue
+		}
+		claim := cs.SiafundTaxRevenue.Sub(e.ClaimStart).Div64(10000).Mul64(e.SiafundOutput.Value)
+		if claim.IsZero() {
+			continue
+		}
+		a := types.V2Transaction{SiafundInputs: []types.V2SiafundInput{{Parent: e.Copy(), ClaimAddress: claimLock.Addr, SatisfiedPolicy: types.SatisfiedPolicy{Policy: l.Policy}}}, SiafundOutputs: []types.SiafundOutput{{Value: e.SiafundOutput.Value, Address: l.Addr}}}
+		s.c.SignV2(cs, &a, nil)
+		for _, claimed := range []uint64{0, child} {
+			parent := types.SiacoinElement{ID: id.V2ClaimOutputID(), StateElement: types.StateElement{LeafIndex: types.UnassignedLeafIndex}, SiacoinOutput: types.SiacoinOutput{Value: claim, Address: claimLock.Addr}, MaturityHeight: claimed}
+			bt := s.c.NewV2Spend(cs, parent, claimLock, types.VoidAddress)
+			blk, bs, err := s.c.BlockWith(nil, []types.V2Transaction{a, bt})
+			if err != nil {
+				return
+			}
+			verr := consensus.ValidateBlock(cs, blk, bs)
+			s.b.Eval(1)
+			s.b.Distinct("ephemeral-maturity", s.fam, child < n.HardforkV2.EphemeralOutputHeight, child == n.HardforkV2.EphemeralOutputHeight, claimed)
+			if child < n.HardforkV2.EphemeralOutputHeight {
+				s.b.Count(fmt.Sprintf("observed:legacy-window-in-block-spend-of-immature-claim-accepted=%v", verr == nil), 1)
+				continue
+			}
+			if verr == nil {
+				s.b.Violate("C08/early/immature-output-spent-in-its-own-block", fmt.Sprintf("at child height %d (ephemeral-output fix height %d, maturity delay %d) a siafund claim output created in the block and maturing at %d was spent in the same block claiming maturity height %d", child, n.HardforkV2.EphemeralOutputHeight, n.MaturityDelay, child+n.MaturityDelay, claimed), map[string]any{"child": child, "fix_height": n.HardforkV2.EphemeralOutputHeight})
+			} else {
+				s.b.Count("in_block_spends_of_immature_outputs_rejected", 1)
+				if child == n.HardforkV2.EphemeralOutputHeight {
+					s.b.Count("in_block_spends_of_immature_outputs_rejected_at_the_fix_height", 1)
+				}
+			}
+		}
+		return
+	}
+}
+
 // version windows: v2 transactions from the allow height, v1 transactions until the require height
 func (s *scen) versionWindow() {
 	n := s.c.Net.N
@@ -641,7 +692,17 @@ func run(b *harness.B) {
 		rounds := b.Pick(8, 14)
 		for r := 0; r < rounds; r++ {
 			// move on a little with ordinary traffic, then run the scenarios at whatever height/era the chain is in
+			// approach the ephemeral-output fix height one block at a time, probing at every height around it
+			if eoh := net.N.HardforkV2.EphemeralOutputHeight; eoh > c.Height() && eoh-c.Height() <= 8 {
+				for c.Height() < eoh+1 {
+					s.ephemeralMaturity()
+					if c.Grow(1, chaingen.Plan{MaxTxns: 3, Weights: map[string]int{"v2-form": 6, "v1-form": 6}}) == 0 {
+						break
+					}
+				}
+			}
 			c.Grow(1+rng.IntN(5), chaingen.Plan{MaxTxns: 3})
+			s.ephemeralMaturity()
 			s.versionWindow()
 			switch (r + i) % 5 {
 			case 0:
@@ -679,6 +740,6 @@ func main() {
 		Run:         run,
 		MinEvals:    1500,
 		MinDistinct: 80,
-		Require:     []string{"boundaries_observed_on_both_sides", "boundary_points_as_predicted", "after_policy_median_equal_to_lock_time_visited"},
+		Require:     []string{"boundaries_observed_on_both_sides", "boundary_points_as_predicted", "after_policy_median_equal_to_lock_time_visited", "in_block_spends_of_immature_outputs_rejected_at_the_fix_height"},
 	})
 }
